@@ -141,6 +141,15 @@ CHECKS = [
              "parameters T(xi) != closed-form quantile of the target at p, values outside the support, non-monotonicity and "
              "inverse(T(xi)) != xi.",
      "design_ref": "DESIGN.md 4/C30"},
+    {"property_id": "C31", "engine": "B", "category": "other", "technique": TECH_B + "; the index is a vector of z3 Int variables constrained to the level's range, so one query covers every index of a level",
+     "note": NOTE_B + " Partial: regular, open (padded), product and flattened (serial/nest) grids; HEALPix and logarithmic radial grids are NOT claimed.",
+     "text": "Bounded symbolic verification on the compiler IR with an integer sort (XLA truncating div/rem, floor div/mod, clipping "
+             "encoded exactly): for 9 grid configurations (regular 1-D/2-D, open with paddings 0-2, product; each also flattened in "
+             "serial and nest ordering where supported), at every level and for ALL indices of the level: children lie in the next "
+             "level, are distinct and parent(child) == i; every fine index j is among children(parent(j)) (partition); flat <-> n-d "
+             "round trips and flat children == flattened n-d children; coord2index(index2coord(i)) == i (open grids); neighbourhoods "
+             "wrap / stay inside; refinement never creates volume.",
+     "design_ref": "DESIGN.md 4/C31"},
 ]
 
 ALL = [f"C{i:02d}" for i in range(1, 37)]
